@@ -193,3 +193,32 @@ func newMesh(n int) (*Mesh, []string, []*netceptor.Netceptor, bool) {
 	ok := m.WaitRoutes(want, 10*time.Second)
 	return m, names, nodes, ok
 }
+
+// stacksOf returns the stacks of the goroutines whose stack mentions one of the given words
+// (what a hung Close was waiting for).
+func stacksOf(words ...string) []string {
+	var b bytes.Buffer
+	_ = pprof.Lookup("goroutine").WriteTo(&b, 2)
+	var out []string
+	for _, blk := range strings.Split(b.String(), "\n\n") {
+		for _, w := range words {
+			if strings.Contains(blk, w) {
+				var fns []string
+				for _, l := range strings.Split(blk, "\n") {
+					if !strings.HasPrefix(l, "\t") {
+						if i := strings.LastIndex(l, "("); i > 0 {
+							l = l[:i]
+						}
+						fns = append(fns, strings.TrimPrefix(strings.TrimPrefix(l, pkgPrefix), "github.com/quic-go/"))
+					}
+				}
+				if len(fns) > 14 {
+					fns = fns[:14]
+				}
+				out = append(out, strings.Join(fns, " < "))
+				break
+			}
+		}
+	}
+	return out
+}
